@@ -122,9 +122,11 @@ Section Panoc.
   Definition eval_psih_exit (i : iterate) : iterate :=
     let r := psi_yhat (ixh i) in
     mkIt (ix i) (ixh i) (igrad i) (igradh i) (ip i) (snd r) (ipsi i) (fst r) (igam i) (iL i) (ipp i) (igp i) (ih i) (ihave i).
-  (* eval_grad_ψx̂(i): eval_grad_L(x̂, ŷx̂) *)
+  (* eval_grad_ψx̂(i): eval_grad_L(x̂, ŷx̂); with eager_gradient_eval ŷx̂ is not available (eval_ψ_grad_ψ does not return it): eval_grad_ψ(x̂) *)
   Definition eval_gradh (i : iterate) : iterate :=
-    mkIt (ix i) (ixh i) (igrad i) (grad_L (ixh i) (iyh i)) (ip i) (iyh i) (ipsi i) (ipsih i) (igam i) (iL i) (ipp i) (igp i) (ih i) true.
+    mkIt (ix i) (ixh i) (igrad i) (if p_eager P then grad_psi (ixh i) else grad_L (ixh i) (iyh i)) (ip i) (iyh i) (ipsi i) (ipsih i)
+         (igam i) (iL i) (ipp i) (igp i) (ih i) true.
+  Definition cnt_gradh (c : counters) : counters := if p_eager P then inc_gpsi c else inc_gl c.
 
   Definition set_gamma_L (i : iterate) (γ L : T) : iterate :=
     mkIt (ix i) (ixh i) (igrad i) (igradh i) (ip i) (iyh i) (ipsi i) (ipsih i) γ L (ipp i) (igp i) (ih i) (ihave i).
@@ -174,7 +176,7 @@ Section Panoc.
   (* take_safe_step: ∇ψ(x̂) if missing; next.x = curr.x̂; next.ψx = curr.ψx̂; next.grad_ψ.swap(curr.grad_ψx̂); both have-flags false *)
   Definition take_safe_step (curr next : iterate) (c : counters) : iterate * iterate * counters :=
     let curr1 := if ihave curr then curr else eval_gradh curr in
-    let c1 := if ihave curr then c else inc_gl c in
+    let c1 := if ihave curr then c else cnt_gradh c in
     let next' := mkIt (ixh curr1) (ixh next) (igradh curr1) (igradh next) (ip next) (iyh next) (ipsih curr1) (ipsih next)
                       (igam next) (iL next) (ipp next) (igp next) (ih next) false in
     let curr' := mkIt (ix curr1) (ixh curr1) (igrad curr1) (igrad next) (ip curr1) (iyh curr1) (ipsi curr1) (ipsih curr1)
@@ -241,7 +243,7 @@ Section Panoc.
     (* ∇ψ(x̂ₖ) if the criterion needs it *)
     let need := need_gradh && negb (ihave (st_curr s)) in
     let curr := if need then eval_gradh (st_curr s) else st_curr s in
-    let c0 := if need then inc_gl (st_cnt s) else st_cnt s in
+    let c0 := if need then cnt_gradh (st_cnt s) else st_cnt s in
     let ε := it_eps curr in
     let k := st_k s in
     (* check_all_stop_conditions: time test, then ONE poll of the stop flag *)
